@@ -5,6 +5,12 @@
 (*       targets: sequence of <<x, y, cores>> (cores a sequence of 0..17)  *)
 (*       pairs:   sequence of <<b3, b2, b1, b0, coremask>>                 *)
 (*  <<"chip", x, y, level, <<b3, b2, b1, b0>>>>  get_region_for_chip       *)
+(*  <<"refill", targets, got, pairs>>  the pairs of a LATER flood fill of  *)
+(*       the same binary within one load (a retry after a fault): what is  *)
+(*       requested of it is what is still missing, i.e. the cores of       *)
+(*       `targets` (the binary's targets in the call) that the machine has *)
+(*       not loaded in this binary's earlier fills; got: sequence of       *)
+(*       <<x, y, core>> the machine reported as loaded by those fills.     *)
 (* Exactness is decided by covering + counting: every requested (chip,     *)
 (* core) is selected by some pair, and the pairs select in total exactly as *)
 (* many (chip, core) combinations as were requested - so nothing is        *)
@@ -20,9 +26,13 @@ Ev == Tr.ev[ei]
 
 Word(pr) == <<pr[1], pr[2], pr[3], pr[4]>>
 
-Checks(e) ==
-  CASE e[1] = "ff" ->
-        LET tg == e[2]  pairs == e[3] IN
+\* what a retry fill is asked for: the targets less the cores already loaded (a chip may be left with no core)
+Remaining(tg, got) ==
+  LET gs == {got[i] : i \in 1..Len(got)} IN
+  [i \in 1..Len(tg) |-> <<tg[i][1], tg[i][2],
+                          SelectSeq(tg[i][3], LAMBDA cr : <<tg[i][1], tg[i][2], cr>> \notin gs)>>]
+
+FillChecks(tg, pairs) ==
         [NothingMissing |-> \A i \in 1..Len(tg) : \A j \in 1..Len(tg[i][3]) :
                                \E k \in 1..Len(pairs) :
                                   /\ CoversChip(Word(pairs[k]), tg[i][1], tg[i][2])
@@ -32,6 +42,10 @@ Checks(e) ==
          WellFormedWords |-> \A k \in 1..Len(pairs) : WellFormed(Word(pairs[k])) /\ pairs[k][5] \in 1..262143
                                                       /\ Select(Word(pairs[k])) > 0,
          StrictlyIncreasing |-> \A k \in 1..(Len(pairs) - 1) : LexLess(Key(pairs[k]), Key(pairs[k+1]), 1)]
+
+Checks(e) ==
+  CASE e[1] = "ff" -> FillChecks(e[2], e[3])
+    [] e[1] = "refill" -> FillChecks(Remaining(e[2], e[3]), e[4])
     [] e[1] = "chip" ->
         LET x == e[2]  y == e[3]  lv == e[4]  wd == e[5] IN
         [ChipRegionCovers |-> CoversChip(wd, x, y) /\ Level(wd) = lv /\ WellFormed(wd),
